@@ -19,6 +19,10 @@ import (
 // RaceBuild is set by the race-tagged file.
 var RaceBuild = false
 
+// FineBuild is set by the fine-tagged file of package props: the library was rewritten so
+// that every statement is preceded by a scheduling point (cmd/instrument).
+var FineBuild = false
+
 // Prop describes one registered property check.
 type Prop struct {
 	ID           string
@@ -27,6 +31,8 @@ type Prop struct {
 	ThoroughRuns int
 	// RaceQuick/RaceThorough: number of runs additionally executed in the -race build (0 = none).
 	RaceQuick, RaceThorough int
+	// FineQuick/FineThorough: runs executed in the statement-level-yield build (0 = none).
+	FineQuick, FineThorough int
 	Rule                    string            // how cases are generated and what makes one non-trivial
 	Components              map[string]string // component -> "real" | "stub: ..."
 	Assumptions             []string
